@@ -447,7 +447,7 @@ func genFaultFamily(r *core.Rand, emit func(class string, line string)) {
 	g.add([]string{"ro", "cp", "cps"}[r.Intn(3)])
 	g.add("da")
 	epi := g.ops
-	nmax := 14
+	nmax := 10
 	if kind == "remove" || kind == "openw" || kind == "truncate" || kind == "open" {
 		nmax = 4
 	}
